@@ -11,18 +11,27 @@ import re
 from pyvc.contract import contract
 
 import contracts.c17d_nodes as N17      # noqa: F401
-from contracts.piecewise import PWV
 from contracts.c17_obligations import _replay_code
 
 P = 'C17'
 Q = 'biogeme.models.piecewise.'
 
-X = 'c05c_val(variable)'
+X = 'c17d_xval(variable)'
+
+
+# documented value of the q-th piecewise-linear variable at x, in the max / min form of the documentation:
+#   first threshold None: min(x, t_1);  last threshold None: max(0, x - t_q);  otherwise max(0, min(x - t_q, t_{q+1} - t_q))
+_T = "typed(thresholds[{0}], 'float')"
+_MIN = "ite({0} <= {1}, {0}, {1})"
+_MAX0 = "ite(0.0 >= {0}, 0.0, {0})"
+PWV_DOC = ("(ite(thresholds[q] is None, " + _MIN.format('x', _T.format('q + 1')) + ", "
+           "ite(thresholds[q + 1] is None, " + _MAX0.format('(x - ' + _T.format('q') + ')') + ", "
+           + _MAX0.format('(' + _MIN.format('(x - ' + _T.format('q') + ')', '(' + _T.format('q + 1') + ' - ' + _T.format('q') + ')') + ')') + ")))")
 
 
 def pwv(x=X, q='q', th='thresholds'):
-    """documented value of the q-th piecewise variable at x (text of contracts/piecewise.py)"""
-    t = re.sub(r'\bx\b', x, PWV)
+    """documented value of the q-th piecewise variable at x"""
+    t = re.sub(r'\bx\b', x, PWV_DOC)
     t = re.sub(r'\bthresholds\b', th, t)
     return re.sub(r'\bq\b', q, t)
 
@@ -34,8 +43,10 @@ _KIND = ("iff(isinstance(typed(RES[0], 'Expression'), bioMin), thresholds[0] is 
 _SAME_THRESHOLDS = "len(thresholds) == old(len(thresholds)) and forall(lambda q: same(thresholds[q], old(thresholds[q])), 0, len(thresholds))"
 
 contract(Q + 'piecewise_variables', P,
-         types={'variable': 'Variable', 'thresholds': 'list[float | None]'},
+         types={'thresholds': 'list[float | None]'},      # `variable`: any value (name, Variable node, anything else)
          requires={'well_formed': _WELL_FORMED},
+         raises={'BiogemeError': 'not isinstance(variable, str) and not isinstance(variable, Variable)'},
+         hints=['c17d_variable_meaning(variable)'],
          # frame: decided by the static obligation C17:static:piecewise_variables:mutates-only-own-list (the loop re-binds the
          # local list, see contracts/c17_builders.py)
          modifies=[], check_frame=False,
@@ -44,10 +55,12 @@ contract(Q + 'piecewise_variables', P,
                   'first_variable_kind': _KIND.replace('RES', 'result'),
                   # value of every variable == documented closed form (closed interval, open lower end, open upper end)
                   'value_of_each_variable': f"forall(lambda q: c05c_val(result[q]) == {pwv()}, 0, len(thresholds) - 1)"},
-         invariants={1: {'clauses': {
+         # the three ways of building the first variable are kept apart (no join): each path runs the loop, the core numbers
+         # the loop executions 1, 2, 3
+         invariants={k: {'clauses': {
              'count': "len(results) == 1 + _k",
              'own_list': "results is not thresholds and c17_allocated(results)",
              'first_kept': _KIND.replace('RES', 'results'),
              'thresholds_kept': "len(thresholds) == eye and " + _SAME_THRESHOLDS,
-             'values': f"forall(lambda q: c05c_val(results[q]) == {pwv()}, 0, 1 + _k)"}}},
+             'values': f"forall(lambda q: c05c_val(results[q]) == {pwv()}, 0, 1 + _k)"}} for k in (1, 2, 3)},
          replay=_replay_code('c17_piecewise.py', 'piecewise_variables:each-variable'))
